@@ -109,6 +109,14 @@ namespace mpf = boost::multiprecision;
 ///@todo rational scalers
 ///@todo rational simplifier
 
+#ifdef SOPLEX_VERIF
+/* verification hook H4: read-only probe into the private flags of SoPlexBase (defined by the harness) */
+namespace soplex_verif
+{
+struct Probe;
+}
+#endif
+
 namespace soplex
 {
 
@@ -119,6 +127,9 @@ namespace soplex
 template <class R>
 class SoPlexBase
 {
+#ifdef SOPLEX_VERIF
+   friend struct ::soplex_verif::Probe;
+#endif
 public:
 
    ///@name Construction and destruction
